@@ -251,6 +251,11 @@ def raster_cases(draw):
         if li is None and draw(st.integers(0, 2)) == 0:
             # a translucent dark colour on a transparent background (RGB_ALPHA)
             d = draw(st.sampled_from(['#ff000080', [255, 0, 0, 128], [1, 2, 3, 4], '#0000ffcc', [10, 20, 30, 0.5]]))
+        elif draw(st.integers(0, 3)) == 0:
+            # colours with an alpha channel on either side, also black / white with alpha and an opaque counterpart
+            d = draw(st.one_of(colors.with_alpha(none_ok=False), st.sampled_from(['#00000080', [0, 0, 0, 128], [255, 255, 255, 0.5], '#fff8'])))
+            if draw(st.booleans()):
+                li = draw(st.one_of(colors.with_alpha(none_ok=True), st.sampled_from(['#ffffff80', [0, 0, 0, 64]])))
         if d != 'DEFAULT':
             opts['dark'] = d
         if li != 'DEFAULT':
